@@ -173,7 +173,30 @@ Definition generic_class (cfg : hconf) (expired : pystr -> bool) (t : term) : op
   else if is_ok (idt_info (h_idt cfg) expired t) then Some MIdToken
   else None.
 
-Record prov := mkProv { p_cfg : hconf; p_expired : pystr -> bool; p_db : list (pystr * sess) }.
+(* THE ASKER (introspection).  The introspection endpoint answers the authenticated client that ASKS about a value;
+   this need not be the client the token was minted for: a protected resource that validates the bearer tokens it is
+   handed is a registered client of its own.  Whether an asker gets an answer at all is the audience rule:
+   the endpoint's enforce_audience_restriction setting (p_enforce_default), overridden by the asker's own registration
+   (p_enforce), and - when enforced - membership of the asker in the audience of the token (the token object's
+   `resources`, else the grant's; default: the session's own client).  p_aud: (session, class) -> audience on record *)
+Record prov := mkProv { p_cfg : hconf; p_expired : pystr -> bool; p_db : list (pystr * sess);
+                        p_enforce_default : bool; p_enforce : list (pystr * bool); p_aud : list (nat * nat * list pystr) }.
+Definition tk_num (c : tk) : nat := match c with KCode => 0%nat | KAccess => 1%nat | KRefresh => 2%nat end.
+Fixpoint aud_lookup (g c : nat) (l : list (nat * nat * list pystr)) : option (list pystr) :=
+  match l with
+  | [] => None
+  | (g', c', a) :: r => if Nat.eqb g g' && Nat.eqb c c' then Some a else aud_lookup g c r
+  end.
+Definition tok_aud (P : prov) (s : sess) (t : term) : list pystr :=
+  match generic_class (p_cfg P) (p_expired P) t with
+  | Some (MTok c) => match aud_lookup (s_id s) (tk_num c) (p_aud P) with Some a => a | None => [s_client s] end
+  | _ => []
+  end.
+Definition enforced (P : prov) (asker : pystr) : bool :=
+  match assoc asker (p_enforce P) with Some b => b | None => p_enforce_default P end.
+(* may the asker be told about the token of session s that the value t stands for? *)
+Definition may_ask (P : prov) (s : sess) (t : term) (asker : pystr) : bool :=
+  negb (enforced P asker) || existsb (str_eqb asker) (tok_aud P s t).
 Inductive tep := EpUserinfo | EpIntrospect | EpRevoke | EpRefresh | EpCode.
 Definition ep_slot (e : tep) : slot :=
   match e with EpUserinfo => SUserinfo | EpIntrospect | EpRevoke => SGeneric | EpRefresh => SRefresh | EpCode => SCode end.
@@ -189,16 +212,32 @@ Definition ep_class_ok (P : prov) (r : treq) : bool :=
   | EpRevoke => match generic_class (p_cfg P) (p_expired P) (r_tok r) with Some (MTok _) => true | _ => false end
   | _ => true
   end.
-(* process_request: the session the value THIS request carries stands for; every endpoint but userinfo (whose
-   client credential is the token itself) serves the client the token was minted for only *)
+(* what the introspection endpoint has to say about a value, before anybody asked: the session the value stands
+   for (class-agnostic lookup, access and refresh tokens only).  No asker in it. *)
+Definition tintrospect_view (P : prov) (t : term) : option sess :=
+  match slot_session (p_cfg P) (p_expired P) (p_db P) SGeneric t with
+  | Some s => if ep_class_ok P (mkTreq EpIntrospect t []) then Some s else None
+  | None => None
+  end.
+(* process_request: the session the value THIS request carries stands for; the token and revocation endpoints serve
+   the client the token was minted for only (userinfo: the client credential is the token itself); introspection
+   answers every asker the audience rule admits - the asker (r_by) decides WHETHER there is an answer, the answer is
+   the session of the token *)
 Definition tprocess (P : prov) (r : treq) : tanswer :=
   match slot_session (p_cfg P) (p_expired P) (p_db P) (ep_slot (r_ep r)) (r_tok r) with
   | Some s =>
       match r_ep r with
       | EpUserinfo => TSession s
+      | EpIntrospect => if may_ask P s (r_tok r) (r_by r) && ep_class_ok P r then TSession s else TRefused
       | _ => if str_eqb (s_client s) (r_by r) && ep_class_ok P r then TSession s else TRefused
       end
   | None => TRefused
+  end.
+(* the refuted variant (Props/C04.v): an introspection that names the ASKER as the client of the session *)
+Definition tprocess_asker_named (P : prov) (r : treq) : tanswer :=
+  match tprocess P r with
+  | TSession s => match r_ep r with EpIntrospect => TSession (mkSess (s_id s) (s_user s) (r_by r)) | _ => TSession s end
+  | TRefused => TRefused
   end.
 (* parse_request: userinfo authenticates the bearer credential (slot SBearer), the token endpoint's
    post_parse_request looks the code / refresh token up; introspection and revocation check the secret only *)
@@ -276,7 +315,9 @@ Inductive tokspec := TMinted (m : nat) (sid : pystr) | TForeign (m : nat) (forei
 Record tspec := mkTspec { ts_ep : nat; ts_tok : tokspec; ts_by : pystr }.
 Definition tep_of (n : nat) : tep :=
   match n with 0%nat => EpUserinfo | 1%nat => EpIntrospect | 2%nat => EpRevoke | 3%nat => EpRefresh | _ => EpCode end.
-Definition tfcase := ((nat * nat * nat * bool * bool) * list (pystr * sess) * list tspec * list tevent * list (nat * option nat))%type.
+(* the audience configuration of a case: the endpoint's setting, the per-client overrides, the audiences on record *)
+Definition audcase := (bool * list (pystr * bool) * list (nat * nat * list pystr))%type.
+Definition tfcase := ((nat * nat * nat * bool * bool) * list (pystr * sess) * audcase * list tspec * list tevent * list (nat * option nat))%type.
 Definition treq_of (c : nat * nat * nat * bool * bool) (q : tspec) : treq :=
   let '(kc, ka, kr, distinct, idt_own_key) := c in
   let cfg := cfg_of kc ka kr distinct idt_own_key 0%nat in
@@ -287,18 +328,19 @@ Definition treq_of (c : nat * nat * nat * bool * bool) (q : tspec) : treq :=
            | TGarbage => Atom (PS "garbage")
            end in
   mkTreq (tep_of (ts_ep q)) t (ts_by q).
-Definition prov_of (c : nat * nat * nat * bool * bool) (db : list (pystr * sess)) : prov :=
+Definition prov_of (c : nat * nat * nat * bool * bool) (db : list (pystr * sess)) (ac : audcase) : prov :=
   let '(kc, ka, kr, distinct, idt_own_key) := c in
-  mkProv (cfg_of kc ka kr distinct idt_own_key 0%nat) (fun _ => false) db.
+  let '(dflt, over, auds) := ac in
+  mkProv (cfg_of kc ka kr distinct idt_own_key 0%nat) (fun _ => false) db dflt over auds.
 Definition tanswer_id (a : tanswer) : option nat := match a with TRefused => None | TSession s => Some (s_id s) end.
 Fixpoint tfind (i : nat) (l : list (nat * tanswer)) : option tanswer :=
   match l with [] => None | (j, a) :: r => if Nat.eqb i j then Some a else tfind i r end.
 Definition diag_tflight (c : tfcase) : list (nat * option nat) :=
-  let '(k, db, specs, sched, obs) := c in
-  map (fun x => (fst x, tanswer_id (snd x))) (run_tflight (tep_model (prov_of k db)) (map (treq_of k) specs) sched).
+  let '(k, db, ac, specs, sched, obs) := c in
+  map (fun x => (fst x, tanswer_id (snd x))) (run_tflight (tep_model (prov_of k db ac)) (map (treq_of k) specs) sched).
 Definition chk_tflight (c : tfcase) : bool :=
-  let '(k, db, specs, sched, obs) := c in
-  let P := prov_of k db in
+  let '(k, db, ac, specs, sched, obs) := c in
+  let P := prov_of k db ac in
   let reqs := map (treq_of k) specs in
   let out := run_tflight (tep_model P) reqs sched in
   Nat.eqb (length out) (length obs)
